@@ -25,9 +25,10 @@ func init() {
 				Procs:    16,
 				Rule: "case = (Left, Right, n). Exhaustive: every pair of line sequences over alphabet 2 x length <= 8, alphabet 3 x length <= 5 and alphabet 4 x length <= 4 (alphabet 2 x length <= 9, alphabet 3 x length <= 6 in thorough), each with every context size n in 0..5 (so n exceeds every gap for short inputs); random repetitive inputs of up to 60 lines with n in 0..8; context sizes 1000, 2^31, 2^40, MaxInt-1 and MaxInt; inputs that are windows of one shared backing array; very large inputs (4100..11700 lines a side, 16400 and 23200 in thorough: length products past 2^24..2^29) whose seam repeats (one of two adjacent identical blocks removed or added), with the middle replaced, with nothing in common at the ends, and with scattered edits; the F4 witnesses as regression cases. " +
 					"In about half of the cases the diff is rendered (Diff.Format with all three formatters) between the stages, before the stage is checked. At each of the three stages every chunk's edits are interpreted against Left[LStart,LEnd) and Right[RStart,REnd); leading/trailing context <= n; after New and after Unify chunks ascending and disjoint (after Unify also not adjacent) and replacing each left range by the chunk's output yields Right; Edits deep-equals its value after New and is itself a correct script; Left/Right are not modified. " +
+					"Lopsided pairs with 66000..132000 pairwise different lines on one side and one to three lines on the other. " +
 					"Every seventh sparse input has 1500..5500 lines and is given a context of 300..6000 lines (values around 512, 1024, 2048, 4096 included). " +
 					"distinct = enumerated (Left, Right, n) triples, random ones by hash; non-trivial = New produced >= 2 chunks and n >= 1 (context of neighbouring chunks can interact)",
-				Required:     []string{"triples", "multi_chunk_triples", "merged_by_unify", "n_exceeds_gap", "f4_witnesses", "aliased_input_triples", "huge_n_triples", "very_large_input_triples", "formats_between_stages", "unify_on_rebuilt_chunks", "long_sparse_input_triples", "long_sparse_inputs_with_context_in_the_hundreds_or_thousands"},
+				Required:     []string{"triples", "multi_chunk_triples", "merged_by_unify", "n_exceeds_gap", "f4_witnesses", "aliased_input_triples", "huge_n_triples", "very_large_input_triples", "formats_between_stages", "unify_on_rebuilt_chunks", "long_sparse_input_triples", "long_sparse_inputs_with_context_in_the_hundreds_or_thousands", "lopsided_pairs_with_over_65536_distinct_lines"},
 				Exhaustive:   true,
 				Assumptions:  []string{"chunk interpreter written from the Chunk field documentation (1-based half-open ranges)"},
 				CoverPkgs:    []string{"github.com/creachadair/mds/mdiff"},
@@ -377,6 +378,35 @@ func runC13(c *fw.Ctx) {
 			c.Add("triples", 1)
 			c.Max("max:length_product", int64(len(left))*int64(len(right)))
 		}
+	}
+	// lopsided pairs with more than 2^16 (2^17) pairwise different lines on one
+	// side and a handful on the other: the number of DISTINCT lines is what is
+	// large here, the length product stays small
+	for k := 0; k < 6; k++ {
+		if k%c.NBlocks != c.Block || !c.Begin(idx+3050000+k) {
+			continue
+		}
+		N := []int{66000, 70000, 132000}[k%3]
+		long := make([]string, N)
+		for i := range long {
+			long[i] = fmt.Sprint("line ", i)
+		}
+		var short []string
+		switch k % 3 {
+		case 0:
+			short = []string{"something else"}
+		case 1:
+			short = []string{long[5], long[65541], long[N-1]}
+		default:
+			short = []string{long[65536], "x", long[131072]}
+		}
+		if k < 3 {
+			c13check(c, long, short, []int{0, 3, 1}[k%3])
+		} else {
+			c13check(c, short, long, []int{3, 0, 2}[k%3])
+		}
+		c.Add("lopsided_pairs_with_over_65536_distinct_lines", 1)
+		c.Add("triples", 1)
 	}
 	// inputs of 200..700 lines with a few scattered changes and long unchanged
 	// runs between them, with every context size from 0 to 130 and a few beyond
